@@ -17,6 +17,8 @@ import (
 	"go/types"
 
 	"golang.org/x/tools/go/ssa"
+	"strconv"
+	"strings"
 )
 
 type aval interface{}
@@ -816,6 +818,24 @@ func (in *absInterp) call(fr *absFrame, c *ssa.CallCommon) aval {
 			cell := &acell{v: aArr{e: elems}, name: "append"}
 			return aSlice{arr: aRef{root: cell}, n: len(elems)}
 		}
+		if bi.Name() == "min" || bi.Name() == "max" {
+			best, ok := args[0].(aInt)
+			if ok {
+				for _, a := range args[1:] {
+					n, isInt := a.(aInt)
+					if !isInt {
+						ok = false
+						break
+					}
+					if (bi.Name() == "min" && n < best) || (bi.Name() == "max" && n > best) {
+						best = n
+					}
+				}
+				if ok {
+					return best
+				}
+			}
+		}
 		in.fail("builtin %s", bi.Name())
 	}
 	if callee := c.StaticCallee(); callee != nil {
@@ -823,6 +843,9 @@ func (in *absInterp) call(fr *absFrame, c *ssa.CallCommon) aval {
 			if v, handled := h(in, c, args); handled {
 				return v
 			}
+		}
+		if v, ok := stdPure(callee, args); ok {
+			return v
 		}
 		if callee.Blocks == nil {
 			in.fail("%s: call of %s (no body, no hook)", fr.fn.Name(), ssaFuncName(callee))
@@ -862,4 +885,104 @@ func absRun(in *absInterp, fn *ssa.Function, args []aval) (ret aval, panicked av
 	in.steps, in.depth = 0, 0
 	ret = in.Call(fn, args, nil)
 	return
+}
+
+// stdPure evaluates a few pure functions of the standard library on concrete strings and integers, so that a rewrite of
+// an evaluated helper in terms of them (strings.HasPrefix for two index tests) stays decidable.
+func stdPure(callee *ssa.Function, args []aval) (aval, bool) {
+	if callee.Pkg == nil || callee.Signature.Recv() != nil {
+		return nil, false
+	}
+	str := func(i int) (string, bool) {
+		if i >= len(args) {
+			return "", false
+		}
+		s, ok := args[i].(aStr)
+		return string(s), ok
+	}
+	num := func(i int) (int64, bool) {
+		if i >= len(args) {
+			return 0, false
+		}
+		n, ok := args[i].(aInt)
+		return int64(n), ok
+	}
+	switch callee.Pkg.Pkg.Path() + "." + callee.Name() {
+	case "strings.HasPrefix":
+		if a, ok := str(0); ok {
+			if b, ok := str(1); ok {
+				return aBool(strings.HasPrefix(a, b)), true
+			}
+		}
+	case "strings.HasSuffix":
+		if a, ok := str(0); ok {
+			if b, ok := str(1); ok {
+				return aBool(strings.HasSuffix(a, b)), true
+			}
+		}
+	case "strings.EqualFold":
+		if a, ok := str(0); ok {
+			if b, ok := str(1); ok {
+				return aBool(strings.EqualFold(a, b)), true
+			}
+		}
+	case "strings.Contains":
+		if a, ok := str(0); ok {
+			if b, ok := str(1); ok {
+				return aBool(strings.Contains(a, b)), true
+			}
+		}
+	case "strings.Index":
+		if a, ok := str(0); ok {
+			if b, ok := str(1); ok {
+				return aInt(strings.Index(a, b)), true
+			}
+		}
+	case "strings.ToLower":
+		if a, ok := str(0); ok {
+			return aStr(strings.ToLower(a)), true
+		}
+	case "strings.ToUpper":
+		if a, ok := str(0); ok {
+			return aStr(strings.ToUpper(a)), true
+		}
+	case "strings.TrimSpace":
+		if a, ok := str(0); ok {
+			return aStr(strings.TrimSpace(a)), true
+		}
+	case "strings.Trim", "strings.TrimLeft", "strings.TrimRight", "strings.TrimPrefix", "strings.TrimSuffix":
+		if a, ok := str(0); ok {
+			if b, ok := str(1); ok {
+				switch callee.Name() {
+				case "Trim":
+					return aStr(strings.Trim(a, b)), true
+				case "TrimLeft":
+					return aStr(strings.TrimLeft(a, b)), true
+				case "TrimRight":
+					return aStr(strings.TrimRight(a, b)), true
+				case "TrimPrefix":
+					return aStr(strings.TrimPrefix(a, b)), true
+				case "TrimSuffix":
+					return aStr(strings.TrimSuffix(a, b)), true
+				}
+			}
+		}
+	case "strings.Repeat":
+		if a, ok := str(0); ok {
+			if n, ok := num(1); ok && n >= 0 && n < 64 {
+				return aStr(strings.Repeat(a, int(n))), true
+			}
+		}
+	case "strconv.Itoa":
+		if n, ok := num(0); ok {
+			return aStr(strconv.Itoa(int(n))), true
+		}
+	case "strconv.FormatInt":
+		if n, ok := num(0); ok {
+			if b, ok := num(1); ok && b >= 2 && b <= 36 {
+				return aStr(strconv.FormatInt(n, int(b))), true
+			}
+		}
+	}
+	return nil, false
 }
